@@ -269,6 +269,8 @@ def check_description_twins(d1, d2, place, out, stats):
         return
     from statham.schema.elements.meta import ObjectMeta
     docs = sorted(str(c.__doc__) for n, c in ns.items() if isinstance(c, ObjectMeta) and n.startswith("Address"))
+    if d1 == d2:
+        want = (d1,)          # identical twins are one class
     if docs != sorted(str(d) for d in want):
         fail(f"docstrings of the generated classes are {docs!r}, the schemas say {sorted(str(d) for d in want)!r}")
         return
@@ -343,7 +345,7 @@ def run(ctx, scale=1.0):
             if not core.has_surrogate(desc):
                 check_description(desc, out, stats)
         # equally titled, equally shaped objects that differ in their description only
-        pool = [d for d in WHITESPACE_DESCRIPTIONS + ["First address.", "Second address.", "x"] if safe_description(d)]
+        pool = sorted({d for d in WHITESPACE_DESCRIPTIONS + ["First address.", "Second address.", "x"] if safe_description(d)})
         for place in ("properties", "tuple-items", "nested"):
             for _ in range(int((12 if ctx["tier"] == "quick" else 300) * scale)):
                 d1, d2 = rng.sample(pool, 2)
